@@ -46,7 +46,7 @@ pub fn heisenberg_1d(
     let coeff_x: Complex<f64> = Complex::new(-0.5 * jx, 0.0);
     let coeff_y: Complex<f64> = Complex::new(-0.5 * jy, 0.0);
     let coeff_z_coupling: Complex<f64> = Complex::new(-0.5 * jz, 0.0);
-    let field_coeff: Complex<f64> = -mu * Complex::new(-0.5 * h, 0.0);
+    let field_coeff: Complex<f64> = mu * Complex::new(-0.5 * h, 0.0);
 
     let include_jx = jx != 0.0;
     let include_jy = jy != 0.0;
